@@ -50,6 +50,18 @@ def jobs(tier):
     return out
 
 
+FLAG_PAIRS = (([0, 1, 1], [1, 0, 1]), ([0, 0, 1, 1], [0, 1, 2, 3]), ([0, 1, 2, 3], [0, 0, 1, 1]), ([5, 5, 5], [0, 1, 1]),
+              ([5, 8, 5, 8], [0, 1, 0, 1]), ([0, 1, 0, 1], [0, 1, 0, 1]), ([2, 2, 7], [1, 1, 3]))      # incl. order-preserving relabellings of one another
+
+
+def forwarded_ok(a, b, fa, tb, corr=True):
+    """what reaches the estimator must carry the feature's and the target's partitions (any injective recoding does, C02) and must be
+    element-wise identical exactly when the two columns are - the estimator treats identical vectors as a self-pair"""
+    a, b = [int(v) for v in a], [int(v) for v in b]
+    part = lambda u, v: len(u) == len(v) and all((u[i] == u[j]) == (v[i] == v[j]) for i in range(len(v)) for j in range(len(v)))
+    return part(a, fa) and part(b, tb) and (not corr or (a == b) == (fa == tb))      # the self-pair test only matters with correction on
+
+
 def run_flag(job):
     """numba_mi from the real importance_estimator source with a recording kernel: flag == (name == 'MI-numba-randomized')"""
     out = hutil.Out(job)
@@ -62,10 +74,10 @@ def run_flag(job):
             rec.clear()
             ok = True
             # the feature goes in first and the conditioning target second, whatever their cardinalities
-            for fa, tb in (([0, 1, 1], [1, 0, 1]), ([0, 0, 1, 1], [0, 1, 2, 3]), ([0, 1, 2, 3], [0, 0, 1, 1]), ([5, 5, 5], [0, 1, 1])):
+            for fa, tb in FLAG_PAIRS:
                 rec.clear()
                 res = ns['numba_mi'](np.array([[v] for v in fa]), np.array(tb), name, r)
-                ok = ok and len(rec) == 1 and rec[0][3] == (name == 'MI-numba-randomized') and float(rec[0][2]) == r and list(rec[0][0]) == fa and list(rec[0][1]) == tb and res == 0.25
+                ok = ok and len(rec) == 1 and rec[0][3] == (name == 'MI-numba-randomized') and float(rec[0][2]) == r and forwarded_ok(rec[0][0], rec[0][1], fa, tb, name == 'MI-numba-randomized') and res == 0.25
             if ok and not out.twin:
                 out.concrete_ok()
             else:
@@ -138,13 +150,20 @@ def _replay(w):
         ie.ranking_mi_numba = types.SimpleNamespace(mutual_info_estimator_numba=lambda a, b, approximation_factor=None, cardinality_correction=None: rec.append((approximation_factor, cardinality_correction, a, b)) or 0.0)
         bad = False
         try:
-            for fa, tb in (([0, 1, 1], [1, 0, 1]), ([0, 0, 1, 1], [0, 1, 2, 3]), ([0, 1, 2, 3], [0, 0, 1, 1]), ([5, 5, 5], [0, 1, 1])):
+            for fa, tb in FLAG_PAIRS:
                 rec.clear()
                 ie.numba_mi(np.array([[v] for v in fa]), np.array(tb), w['name'], w['ratio'])
-                bad = bad or len(rec) != 1 or rec[0][1] != (w['name'] == 'MI-numba-randomized') or float(rec[0][0]) != w['ratio'] or list(rec[0][2]) != fa or list(rec[0][3]) != tb
+                if len(rec) != 1 or rec[0][1] != (w['name'] == 'MI-numba-randomized') or float(rec[0][0]) != w['ratio'] or not forwarded_ok(rec[0][2], rec[0][3], fa, tb, w['name'] == 'MI-numba-randomized'):
+                    bad = f'feature {fa}, target {tb}: the estimator received {[(float(r_[0]), r_[1], list(map(int, r_[2])), list(map(int, r_[3]))) for r_ in rec]}'
+                    break
         finally:
             ie.ranking_mi_numba = orig
-        return {'reproduced': bool(bad), 'signature': 'C03:flag-dispatch', 'what': f'numba_mi({w["name"]!r}, ratio={w["ratio"]}) forwarded (ratio, correction) = {rec}'}
+        if bad and w['name'] == 'MI-numba-randomized' and w['ratio'] == 1.0:
+            # the consequence on the score itself, with the real estimator
+            got = float(ie.numba_mi(np.array([[v] for v in fa]), np.array(tb), w['name'], 1.0))
+            exp = KM.c_entropy(fa) if fa == tb else KM.c_corrected(fa, tb)
+            bad += f'; score {got:.6f}, H(Y*|X) - H(Y|X) = {exp:.6f}'
+        return {'reproduced': bool(bad), 'signature': 'C03:flag-dispatch', 'what': f'numba_mi({w["name"]!r}, ratio={w["ratio"]}): {bad}'}
     Y, X = w['Y'], w['X']
     got = KM.real_mi(Y, X, 1.0, True)
     exp = KM.c_entropy(Y) if X == Y else KM.c_corrected(Y, X)
